@@ -419,6 +419,15 @@ func (g *G) boolExpr(d int) *m.E {
 		if g.flip("instr") {
 			return m.EBin(pickS(g, "in", []string{"in", "not in"}), g.Expr(TStr, d-1), g.Expr(TArrStr, d-1))
 		}
+		if g.intn("inmixed", 0, 5) == 0 {
+			// a plainly non-numeric word is not a member of a list of numbers
+			// (stick compares as strings, Twig on PHP 8 says the same)
+			hay := g.Expr(TArrInt, d-1)
+			if g.flip("inrange0") {
+				hay = &m.E{K: "group", A: []*m.E{m.EBin("..", m.ENum(0), m.ENum(float64(g.intn("inhi", 0, 4))))}}
+			}
+			return m.EBin(pickS(g, "in", []string{"in", "not in"}), m.EStr(pickS(g, "inword", []string{"a", "zero", "x", "abc"})), hay)
+		}
 		return m.EBin(pickS(g, "in", []string{"in", "not in"}), g.Expr(TInt, d-1), g.Expr(TArrInt, d-1))
 	case 6:
 		return m.EBin(pickS(g, "sw", []string{"starts with", "ends with"}), g.Expr(TStr, d-1), g.Expr(TStr, d-1))
@@ -875,9 +884,18 @@ func (g *G) forStmt(nest int) *m.N {
 		if collide && g.C.Probe {
 			n.Body = append(n.Body, m.NPrint(m.ECall("probe", m.EStr(n.S))))
 		}
+		if g.C.LoopMeta && n.Y == nil && g.inForIf == 0 && g.intn("lidx", 0, 2) == 0 {
+			// a user filter reading the loop metadata from the scope
+			n.Body = append(n.Body, m.NPrint(m.EFilter("lidx", m.EName(n.S))))
+		}
 	}
 	if g.C.LoopMeta && n.Y == nil && g.inForIf == 0 {
 		n.Body = append(n.Body, g.loopMeta(depth)...)
+	}
+	if g.C.LoopMeta && n.Y == nil && g.inForIf == 0 && g.callsOK() && !g.C.Wild && g.intn("purebody", 0, 9) == 0 {
+		// a body that mentions neither `loop` nor any function: the only
+		// observer of the loop metadata is a user filter reading the scope
+		n.Body = []*m.N{m.NText("("), m.NPrint(m.EFilter("lidx", m.EName(n.S))), m.NText(")")}
 	}
 	g.loops--
 	if n.Y != nil {
